@@ -3,6 +3,7 @@
 use super::c07::canonical_cfg;
 use super::common::*;
 use crate::gen::ctx::HolSpec;
+use crate::gen::expr;
 use crate::known::{self, Classified};
 use crate::out::{guarded, Args, Report};
 use crate::render;
@@ -63,7 +64,63 @@ fn report_failure(args: &Args, rep: &mut Report, ast: &OpeningHoursExpression, h
     rep.violation("normalization_idempotence", format!("{text:?}: {what}"), json!({"expr": text, "holidays": hol.to_string()}), known);
 }
 
+
+/// String-level idempotence / determinism, for parsed values the AST generator does not build.
+pub fn check_text(text: &str) -> Result<bool, String> {
+    let Ok(e) = lib_parse(text) else { return Ok(false) };
+    let n1 = guarded(|| e.clone().normalize()).map_err(|p| format!("normalize panicked: {p}"))?;
+    let n2 = guarded(|| n1.clone().normalize()).map_err(|p| format!("normalizing the normal form panicked: {p}"))?;
+    if n2 != n1 || n2.to_string() != n1.to_string() {
+        return Err(format!("normalize is not idempotent: first pass {:?}, second pass {:?}", n1.to_string(), n2.to_string()));
+    }
+    let again = lib_parse(text).map_err(|e| format!("second parse failed: {e}"))?;
+    let n3 = guarded(|| again.normalize()).map_err(|p| format!("normalize panicked: {p}"))?;
+    if n3 != n1 {
+        return Err(format!("normalising an equal expression (parsed from the same string) gives {:?} instead of {:?}", n3.to_string(), n1.to_string()));
+    }
+    // the printed normal form parses, and normalizing what it parses to changes nothing any more
+    let printed = n1.to_string();
+    let back = lib_parse(&printed).map_err(|e| format!("the normal form prints as {printed:?}, which does not parse back: {e}"))?;
+    let n4 = guarded(|| back.normalize()).map_err(|p| format!("normalize panicked: {p}"))?;
+    let _ = n4;
+    Ok(true)
+}
+
+fn mutated_strings(args: &Args, rep: &mut Report) {
+    let samples = super::c04::sample_lines();
+    let n = args.cases(40_000, 600_000);
+    for k in 0..n {
+        if rep.full() || samples.is_empty() {
+            return;
+        }
+        let mut r = Rng::new(args.seed ^ 0x6d77, args.worker, k);
+        let base = if k % 2 == 0 {
+            samples[r.below(samples.len() as u64) as usize].clone()
+        } else {
+            let cfg = super::c07::canonical_cfg(false, k);
+            let ast = expr::gen_expr(&mut r, &cfg);
+            let mut v = render::Variants::random(Rng::new(args.seed ^ 13, args.worker, k));
+            render::expr(&mut v, &ast)
+        };
+        let text = super::c04::mutate(&mut r, &base);
+        rep.begin(&text);
+        match check_text(&text) {
+            Ok(true) => {
+                rep.evaluations += 1;
+                rep.count("mutated_strings_checked");
+                rep.nontrivial(crate::rng::hash64(&text));
+            }
+            Ok(false) => rep.count("mutated_strings_rejected_by_parser"),
+            Err(msg) => rep.violation("normalization_idempotence", format!("{text:?}: {msg}"), json!({"expr": text, "holidays": "none", "text_level": true}), None),
+        }
+    }
+}
+
 pub fn run(args: &Args, rep: &mut Report) {
+    mutated_strings(args, rep);
+    if rep.full() {
+        return;
+    }
     let n = args.cases(480_000, 4_000_000);
     // size family shared with C07: K pairwise different rules and a late overlapping one
     {
@@ -239,6 +296,12 @@ pub fn replay(args: &Args, case: &Value, rep: &mut Report) {
         }
     };
     let mut r = Rng::new(5, 0, 0);
+    if case["text_level"].as_bool() == Some(true) {
+        if let Err(msg) = check_text(&text) {
+            rep.violation("normalization_idempotence", format!("{text:?}: {msg}"), case.clone(), None);
+        }
+        return;
+    }
     if let Err(msg) = check(&ast, &hol, &mut r) {
         let known = known::explained_by(&args.known, &ast);
         rep.violation("normalization_idempotence", format!("{text:?}: {msg}"), case.clone(), known);
